@@ -21,6 +21,18 @@ CHECKS = {
     "C12": dict(cat="exploration", ref="DESIGN.md §6 C12",
         tech="deterministic simulation: seeded random walks, refusal compared with a ledger count of unfinished requests, capacity-fill probe at quiescence",
         text="Random walks of up to 40 sends mixed with indications, every kind of response, rejected buffers and expiries under limits 0-4 and 10; send_request must be refused exactly when the ledger's count of unfinished requests equals the limit, refused calls produce no event, and at quiescence the whole capacity is available again (probe: limit sends accepted, the next refused)."),
+    "C07": dict(cat="exploration", ref="DESIGN.md §6 C07, Appendix A",
+        tech="deterministic simulation: scripted server personalities x network faults, every delivery classified by an independent HMAC verifier and compared with the admitted outcomes",
+        text="A reference server answers each (re)transmission with a reply drawn from the property's catalogue (valid MI / SHA256, both, none, corrupted MAC, MAC under a password one character off, the non-agreed algorithm, duplicates) for success and error responses and indications, on both transports, while timers and further requests interleave; each delivery is classified with an independent HMAC implementation and the client's reaction (deliver / ignore / ProtectionViolated now / final failure reason) must lie in the set the property admits; every emitted request must carry USERNAME and exactly the integrity attributes the agreed algorithm implies, verifying independently."),
+    "C08": dict(cat="exploration", ref="DESIGN.md §6 C08, Appendix B/C",
+        tech="deterministic simulation: challenge/retry conversations against a scripted reference server; every client request checked by an independent RFC 8489 9.2.4 acceptance predicate",
+        text="Conversations of up to 5 application requests with up to 4 retries each against a reference server whose behaviour per request is drawn from the property's list (401 variants, 438, authenticated / unauthenticated / wrongly keyed success, other errors, unsupported algorithms, missing realm/nonce), with application-supplied credential attributes and network faults on top. The oracle follows observationally which challenge the client accepted, runs every emitted request through an independent implementation of the server-side acceptance rules, and checks each incoming message's outcome against the admitted set. Two request-forming shapes pinned by the existing tests are recorded as known findings with narrow keys."),
+    "C10": dict(cat="fault_enumeration", ref="DESIGN.md §6 C10",
+        tech="deterministic simulation with systematic fault enumeration: every single-bit fault and four byte-substitution classes at every position of sampled in-flight messages; client enforcement under seeded plans",
+        text="Codec half: for sampled in-flight messages carrying FINGERPRINT (built by the real client and by the reference server) the independent CRC must equal the attribute, and every single-bit fault at every position plus four byte-substitution classes per byte are applied in turn; the altered bytes must never be accepted as carrying a valid FINGERPRINT by the real decoder/validator (differential against the independent verifier). Client half: under seeded plans with every mechanism, everything emitted ends with one valid FINGERPRINT and a received message whose FINGERPRINT is absent or wrong returns an error, produces no event and completes nothing."),
+    "C13": dict(cat="exploration", ref="DESIGN.md §6 C13",
+        tech="deterministic simulation: wire tap on client output decoded by an independent parser/verifier across all explored histories",
+        text="Every packet the client emits along the explored histories is parsed and verified independently: class/method as asked, fresh transaction id, application attributes (one per type, first-insertion order, last value) first, then only the mechanism's credential attributes, then at most one MI, one MI-SHA256 and one FINGERPRINT in that order, each verifying; no type twice; every retransmission byte-identical."),
 }
 
 NOT_APPLICABLE = {
